@@ -23,8 +23,12 @@ def gen(tier, rng):
         cases.append(f"mailparam\t{hexs('KEY')}\t{hexs(chr(cp))}")
         cases.append(f"mailparam\t{hexs('KEY')}\t{hexs('a' + chr(cp) + 'b')}")
     alphabet = "ab+= \t\r\n\x00\x7f\x01\x0féø❤"
+    # values that look xtext-encoded already (`+HH`) next to octets that still need escaping (round 7: C04/m19)
+    for v in ["QQ+2B314159 Z=1", "+2B", "+2B ", "+41=", "a+7Fb\x7f", "+2b", "+4", "++41", "+41+", "x+3D y", "+0D\r", "+00\x00+20 "]:
+        cases.append(f"mailparam\t{hexs('ENVID')}\t{hexs(v)}")
+    hexish = "+++2B4A1F0Dab= \t\x7f"
     for _ in range(nparam):
-        v = "".join(rng.choice(alphabet) for _ in range(rng.randint(0, 12)))
+        v = "".join(rng.choice(alphabet if rng.random() < 0.6 else hexish) for _ in range(rng.randint(0, 12)))
         kw = rng.choice(["ORCPT", "NOTIFY", "X-K", "RET", "ENVID"])
         if rng.random() < 0.1:
             cases.append(f"mailparam\t{hexs(kw)}\t-")
